@@ -2,3 +2,4 @@ import Gittuf.Props.C05
 #print axioms Gittuf.C05_sound
 #print axioms Gittuf.C05_invalid
 #print axioms Gittuf.C05_accept_satisfies
+#print axioms Gittuf.C05_unmet_credited
